@@ -385,6 +385,14 @@ def rule_predicates(F, R):
         g = fit[0]
         up = [c for c in g.calls(lambda c: pp(c).startswith("cache.m_acc_neg.update("))]
         guards = [x for x in g.nodes() if x["k"] == "if" and pp(x["c"][x["r"].index("cond")]) == "(ivalue1.first < ivalue2.first)"]
+        loose = [x for x in g.nodes() if x["k"] == "if" and pp(x["c"][x["r"].index("cond")]) in ("(ivalue1.first <= ivalue2.first)", "(ivalue1.first != ivalue2.first)") or
+                 (x["k"] == "if" and "ivalue1.first" in pp(x["c"][x["r"].index("cond")]) and "ivalue2.first" in pp(x["c"][x["r"].index("cond")]) and
+                  pp(x["c"][x["r"].index("cond")]) != "(ivalue1.first < ivalue2.first)")]
+        if loose and not guards:
+            R.bad("R-C10-3", "stump candidate thresholds", g.loc(loose[0]),
+                  "a threshold is scored under `%s` instead of `ivalue1.first < ivalue2.first`: for the sorted values this also holds inside a group of equal values, where "
+                  "the mid-point is the value itself and `value < threshold` sends the whole group to one side - the scored partition is not one any threshold produces, the "
+                  "reported RSS can lie below the class minimum and the predictions above it" % pp(loose[0]["c"][loose[0]["r"].index("cond")]))
         thr = [x for x in g.nodes() if assignment(x) and pp(assignment(x)[0]) == "cache.m_threshold"]
         t0 = [x for x in g.nodes() if assignment(x) and pp(assignment(x)[0]) == "cache.m_tables.array(0)"]
         t1 = [x for x in g.nodes() if assignment(x) and pp(assignment(x)[0]) == "cache.m_tables.array(1)"]
